@@ -430,7 +430,12 @@ def binop(ctx, fr, p, op, a, b, node=None):
         elif ka in ("VInt", "VBool") and kb in ("VInt", "VBool"):
             yield p, Val(V.VInt(simp(ctx.as_int(p, a) + ctx.as_int(p, b))), ("int",))
         else:
-            raise Unsupported(f"'+' on operands of unknown type ({_where(node)})")
+            # operands whose kind is hidden behind an if-then-else with integer leaves (k = 0 ... k += 1 after a join)
+            from .loops import _ite_kind
+            if {_ite_kind(simp(a.t)) or ka, _ite_kind(simp(b.t)) or kb} <= {"VInt", "VBool"}:
+                yield p, Val(V.VInt(simp(ctx.as_int(p, a) + ctx.as_int(p, b))), ("int",))
+                return
+            raise Unsupported(f"'+' on operands of unknown type ({_where(node)}): {ka}/{kb} {str(simp(a.t))[:80]} + {str(simp(b.t))[:80]}")
         return
     if isinstance(op, ast.Sub):
         ka = ctx.kind(a)
@@ -746,6 +751,14 @@ def py_in(ctx, fr, p, x, cont, node=None):
     raise Unsupported(f"'in' on container of unknown type ({_where(node)})")
 
 
+def _join_container_ann(a, b):
+    """list/set annotation when only one side knows the element shape (the other is an empty literal)."""
+    for x, y in ((a, b), (b, a)):
+        if x is not None and y is not None and x[0] in ("list", "set") and y[0] == x[0] and len(y) > 1 and y[1] is None:
+            return x
+    return None
+
+
 def e_IfExp(ctx, fr, path, node):
     if is_pure_expr(node.test) and is_pure_expr(node.body) and is_pure_expr(node.orelse):
         # merged evaluation: value-level ite, no fork
@@ -758,7 +771,7 @@ def e_IfExp(ctx, fr, path, node):
             a = ev_guarded(ctx, fr, path, node.body, c)
             b = ev_guarded(ctx, fr, path, node.orelse, simp(z3.Not(c)))
             if isinstance(a, Val) and isinstance(b, Val):
-                ann = a.ann if a.ann == b.ann else None
+                ann = a.ann if a.ann == b.ann else _join_container_ann(a.ann, b.ann)
                 own = "imm" if (a.own == "imm" and b.own == "imm") else ("borrow" if "borrow" in (a.own, b.own) else "fresh")
                 mv = Val(simp(z3.If(c, a.t, b.t)), ann, own=own, deep=a.deep and b.deep)
                 mv.root = a.root if a.root == b.root else None
